@@ -113,7 +113,7 @@ def run_case(case):
                 proof.update(k, v, common.vary(ups))
                 out = "ok"
             except Exception as e:  # noqa
-                out = "exn " + type(e).__name__
+                out = "exn " + common.exc_name(e)
             res.emit("smt.pupdate 0 %s %s %s" % (hx(k), hx(v), ",".join(h.hex() for h in ups) if ups else "-"), out)
             enough = bp is None or attempt > bp
             if enough and out != "ok":
